@@ -362,7 +362,7 @@ func Run(o Opts, r *vbase.Result) {
 				cancel context.CancelFunc
 				seq    uint64
 			}
-			var queue []pend
+			var queue, retries []pend
 			window := 4 * int(o.Batch)
 			seq, mainDone := uint64(1), 0
 			// after its o.Cmds commands the client keeps sending filler commands until the main ones are answered:
@@ -370,6 +370,14 @@ func Run(o Opts, r *vbase.Result) {
 			for ctx.Err() == nil && mainDone < o.Cmds {
 				for len(queue) < window {
 					cmd := &clientpb.Command{ClientID: client, SequenceNumber: seq, Data: cmdData(client, seq)}
+					if o.Resubmit && seq%5 == 0 && seq <= uint64(o.Cmds) {
+						// an impatient client: the same command sent twice while it is pending (a retry). Neither call may be
+						// answered with success before the replica executed the command.
+						dup := &clientpb.Command{ClientID: client, SequenceNumber: seq, Data: cmdData(client, seq)}
+						dctx, dcancel := context.WithTimeout(ctx, 3*time.Second)
+						retries = append(retries, pend{cfg.ExecCommand(dctx, dup), dcancel, seq})
+						r.Obs("live_commands_sent_twice_while_pending", 1)
+					}
 					cctx, ccancel := context.WithTimeout(ctx, 20*time.Second)
 					queue = append(queue, pend{cfg.ExecCommand(cctx, cmd), ccancel, seq})
 					seq++
@@ -387,6 +395,10 @@ func Run(o Opts, r *vbase.Result) {
 				queue = queue[1:]
 			}
 			for _, pd := range queue {
+				pd.cancel()
+			}
+			for _, pd := range retries {
+				_, _ = pd.p.Get() // superseded calls are answered late or not at all; the quorum function has recorded what came
 				pd.cancel()
 			}
 			if o.Resubmit && ctx.Err() == nil {
